@@ -86,15 +86,20 @@ pub enum StaticData {
     OptWriteC,
     ReadExpectA,
     ReadAWriteC,
+    /// `(Option<Read<A>>, Read<A>)`: the resource is first named by a member that creates nothing
+    OptReadAThenReadA,
+    /// `((ReadExpect<A>, Option<Read<C>>), (Read<A>, Read<C>))`: a bundle that only names, then one that provides
+    NamingThenProviding,
 }
 
 impl StaticData {
-    pub fn all() -> [StaticData; 7] {
-        [StaticData::Unit, StaticData::ReadA, StaticData::WriteC, StaticData::OptReadA, StaticData::OptWriteC, StaticData::ReadExpectA, StaticData::ReadAWriteC]
+    pub fn all() -> [StaticData; 9] {
+        [StaticData::Unit, StaticData::ReadA, StaticData::WriteC, StaticData::OptReadA, StaticData::OptWriteC, StaticData::ReadExpectA, StaticData::ReadAWriteC, StaticData::OptReadAThenReadA, StaticData::NamingThenProviding]
     }
     pub fn reads(self) -> Vec<u8> {
         match self {
-            StaticData::ReadA | StaticData::OptReadA | StaticData::ReadExpectA | StaticData::ReadAWriteC => vec![0],
+            StaticData::ReadA | StaticData::OptReadA | StaticData::ReadExpectA | StaticData::ReadAWriteC | StaticData::OptReadAThenReadA => vec![0],
+            StaticData::NamingThenProviding => vec![0, 2],
             _ => vec![],
         }
     }
@@ -109,7 +114,8 @@ impl StaticData {
         match self {
             StaticData::ReadA => vec![0],
             StaticData::WriteC => vec![2],
-            StaticData::ReadAWriteC => vec![0, 2],
+            StaticData::ReadAWriteC | StaticData::NamingThenProviding => vec![0, 2],
+            StaticData::OptReadAThenReadA => vec![0],
             _ => vec![],
         }
     }
@@ -122,6 +128,8 @@ impl StaticData {
             StaticData::OptWriteC => "Option<Write<C>>",
             StaticData::ReadExpectA => "ReadExpect<A>",
             StaticData::ReadAWriteC => "(Read<A>, Write<C>)",
+            StaticData::OptReadAThenReadA => "(Option<Read<A>>, Read<A>)",
+            StaticData::NamingThenProviding => "((ReadExpect<A>, Option<Read<C>>), (Read<A>, Read<C>))",
         }
     }
 }
